@@ -224,11 +224,14 @@ def run_case_layer(res, task):
     _, tier, pid = task
     prog = corpus.corpus()[pid]
     std = G.prog_std(prog)
-    base_src = corpus.render(prog)
+    # (without whitespace-only lines: the virtual opener of an anonymous main
+    # program is rendered as one, and with comments kept a blank line behind a
+    # directive is a Comment('') node of its own)
+    lines = [l for l in corpus.render(prog).rstrip("\n").split("\n") if l.strip()]
+    base_src = "\n".join(lines) + "\n"
     o0 = try_parse(base_src, std)
     base_struct = struct(o0.tree)
     base_lines = [l.strip() for l in text_of(o0.tree).split("\n") if l.strip()]
-    lines = base_src.rstrip("\n").split("\n")
     n = len(lines)
     gaps = sorted(set([0, 1, n // 2, n - 1, n]))
     modes = ["plain"] if tier == "quick" else ["plain", "continued"]
